@@ -17,6 +17,14 @@ from deap.tools import support
 ANCHORS = [("deap/tools/support.py", ["Statistics", "MultiStatistics", "Logbook", "identity"])]
 LEVEL = "proof"
 RULE = ("fixed witnesses of the repaired defects (F3, F4, F5, F12); fixed logbooks whose print exercises every part of __txt__; "
+        "HISTORIES OVER A MultiStatistics AND ITS Statistics OBJECTS AS MUTABLE STATE: 56 fixed histories (every dict mutator - ms[k]=, del, update(dict / kwargs / pairs), "
+        "|=, setdefault (new and present key), pop (present and absent key), popitem, clear - after nothing / after `fields` / after `compile` / after fields+compile+record, "
+        "followed by compile, a re-registration through the MultiStatistics, fields, compile) and random histories in five profiles (mixed, bypass = mutators that are not "
+        "__setitem__/__delitem__, register-heavy with re-registered names and frozen arguments, alias = one object under several names / re-inserted after pop, pipeline = "
+        "Logbook.record(**ms.compile(data)) with the header taken from ms.fields) x data as list / tuple / short-lived objects; construction by keywords, by item list or empty; "
+        "after EVERY compile the oracle demands exactly one sub-record per statistics object currently in the dict, each = every function currently registered in that object "
+        "applied with its frozen arguments to the tuple of key values (result and the recorded calls); the dict (name -> object identity, in order), fields, "
+        "Statistics.fields, return values and KeyErrors of every operation are compared with the model `Core/StatsHist.lean` after every operation; "
         "the Python string functions of the text model one by one (format of ints / None / str / doubles incl. ties of the sixth digit, any bit pattern, "
         "inf, nan; center, ljust, expandtabs); histories with a pickle round trip (protocols 0..5) continued on the copy AND on the original in turn; "
         "histories over non-uniform chapter sets with str() everywhere (text or raise, model against implementation only); enumeration of operation sequences over {record, stream, "
@@ -47,7 +55,9 @@ ASSUMPTIONS = ["chapter alignment (at every depth) is demanded for logbooks all 
                "every level (DESIGN section 6); integer indices out of range must raise and change nothing; pop / del on a "
                "logbook whose chapters are misaligned by construction (records with differing chapter names) only compare "
                "model and implementation, and the oracle stops for the rest of that history",
-               "the header is counted over the texts returned by `logbook.stream` (str(logbook) prints its header every time, by design)"]
+               "the header is counted over the texts returned by `logbook.stream` (str(logbook) prints its header every time, by design)",
+               "'the statistics objects of a MultiStatistics' are the items of the dict at the moment of the call (dict.items), whichever dict method put them there; "
+               "what update / setdefault / pop / popitem / clear / |= do to the dict itself is not part of the statement (model against implementation only)"]
 EXPLANATION = ("Theorems C18.* are proved over all histories of the model Core/Logbook.lean (no length bound) and, for the text, of "
                "Core/LogbookText.lean (the complete __txt__ with columns_len as state); the correspondence compares, after every operation "
                "of a history, the complete observable state (rows, buffindex, every chapter recursively, header settings, every "
@@ -55,7 +65,11 @@ EXPLANATION = ("Theorems C18.* are proved over all histories of the model Core/L
                "character; the oracle re-derives the expected logbook from the statement with plain Python list semantics. Pickling "
                "is the identity on the model state (C18.pickle_transparent says what that implies); that the real pickle restores "
                "the whole state is established by this correspondence: after a round trip under every protocol the history goes on "
-               "on the copy and on the original, both compared with the model and checked by the oracle.")
+               "on the copy and on the original, both compared with the model and checked by the oracle. "
+               "MultiStatistics / Statistics as mutable objects: Core/StatsHist.lean is a state machine (heap of Statistics objects, dict name -> object id) under "
+               "alloc / register / ms.register / every dict mutator / fields / compile; compile_after_history (observations can be struck out of a history, compile is "
+               "Multi.compile of the resolved current mapping), multi_compile_keys (keys of the record = keys of the dict, each once, after every history), "
+               "register_overrides(_multi), fields_sorted_current are proved for all histories; `C18 mhist` replays the harness histories step by step.")
 
 Logbook = tools.Logbook
 
@@ -979,6 +993,329 @@ def eval_multi(d):
 
 
 # ------------------------------------------------------------------------------------------------
+# histories over a MultiStatistics and its Statistics objects (mutable state)
+# ------------------------------------------------------------------------------------------------
+
+MH_BYPASS = ("update", "ior", "setdefault", "pop", "popitem", "clear")     # dict mutators that are not __setitem__ / __delitem__
+MH_MUTATORS = MH_BYPASS + ("set", "del", "ctor")
+
+
+def pairs_tok(pairs):
+    return ",".join("%d=%d" % (NUM[k], i) for k, i in pairs) or "-"
+
+
+def show_mrec(res):
+    return "{" + " ".join("%d{%s}" % (NUM[s], show_rec(res[s])) for s in res) + "}"
+
+
+def eval_mhist(d):
+    """One history on ONE MultiStatistics object (and the Statistics objects it creates): every operation is sent to
+    the model (`C18 mhist`), the dict is compared after every operation, and after EVERY compile the statement is
+    evaluated: exactly one sub-record per statistics object currently in the mapping, each holding every function
+    currently registered in that object applied with its frozen arguments to the tuple of key values."""
+    ops = d["ops"]
+    calls = []
+    ms = None
+    objs = []                   # the real Statistics objects, by id
+    keyof = []                  # id -> key code
+    regs = []                   # id -> ordered dict: field name -> (fn, args): the registrations that count (the last per name)
+    toks, answers = [], []
+    orc = [None]
+    log_ops = []
+    gen = [0]
+    seen_obs = False
+    bypass_after_obs = False
+    compiled_after = False
+
+    def fail(msg):
+        if orc[0] is None:
+            orc[0] = msg
+
+    def ident(o):
+        for i, x in enumerate(objs):
+            if x is o:
+                return i
+        return -1
+
+    def dump():
+        if ms is None:
+            return "e"
+        return ",".join("%d>%d" % (NUM[k], ident(v)) for k, v in dict.items(ms)) or "e"
+
+    def reg_shadow(i, name, fn, args):
+        regs[i][name] = (fn, list(args))         # a re-registered name keeps its place, the new function counts
+
+    for j, op in enumerate(ops):
+        k = op[0]
+        obs = "-"
+        if ms is None and k != "new" and k != "reg" and k != "ctor":
+            ms = tools.MultiStatistics()
+        if k == "new":
+            objs.append(build_stats(op[1], False, calls, len(objs)))
+            keyof.append(op[1])
+            regs.append(collections.OrderedDict())
+            toks.append("n:%s" % op[1])
+            obs = "o%d" % (len(objs) - 1)
+        elif k == "reg":
+            _, i, name, fn, args = op
+            register(objs[i], name, fn, args, calls, i)
+            reg_shadow(i, name, fn, args)
+            toks.append("g:%d:%d:%s:%s" % (i, NUM[name], fn, args_tok(args)))
+        elif k == "mreg":
+            _, name, fn, args = op
+            register(ms, name, fn, args, calls, "*")
+            for _k, o in dict.items(ms):
+                reg_shadow(ident(o), name, fn, args)
+            toks.append("R:%d:%s:%s" % (NUM[name], fn, args_tok(args)))
+        elif k == "ctor":
+            pairs, how = op[1], op[2]
+            if ms is not None:
+                raise ValueError("ctor twice")
+            if how == "kw":
+                ms = tools.MultiStatistics(**dict((n, objs[i]) for n, i in pairs))
+            else:
+                ms = tools.MultiStatistics([(n, objs[i]) for n, i in pairs])
+            toks.append("u:" + pairs_tok(pairs))
+        elif k == "set":
+            ms[op[1]] = objs[op[2]]
+            toks.append("s:%d:%d" % (NUM[op[1]], op[2]))
+        elif k == "del":
+            toks.append("x:%d" % NUM[op[1]])
+            try:
+                del ms[op[1]]
+            except KeyError:
+                obs = "!"
+        elif k == "update":
+            pairs, how = op[1], op[2]
+            toks.append("u:" + pairs_tok(pairs))
+            if how == "kw":
+                ms.update(**dict((n, objs[i]) for n, i in pairs))
+            elif how == "pairs":
+                ms.update([(n, objs[i]) for n, i in pairs])
+            else:
+                ms.update(dict((n, objs[i]) for n, i in pairs))
+        elif k == "ior":
+            toks.append("i:" + pairs_tok(op[1]))
+            ms |= dict((n, objs[i]) for n, i in op[1])
+            if type(ms) is not tools.MultiStatistics:
+                fail("op %d: `ms |= {...}` turned the MultiStatistics into %r" % (j, type(ms)))
+        elif k == "setdefault":
+            toks.append("t:%d:%d" % (NUM[op[1]], op[2]))
+            obs = "o%d" % ident(ms.setdefault(op[1], objs[op[2]]))
+        elif k == "pop":
+            toks.append("p:%d" % NUM[op[1]])
+            try:
+                obs = "o%d" % ident(ms.pop(op[1]))
+            except KeyError:
+                obs = "!"
+        elif k == "popitem":
+            toks.append("q")
+            try:
+                n, o = ms.popitem()
+                obs = "%d>%d" % (NUM[n], ident(o))
+            except KeyError:
+                obs = "!"
+        elif k == "clear":
+            toks.append("c")
+            ms.clear()
+        elif k == "fields":
+            toks.append("f")
+            obs = "[%s]" % ",".join(str(NUM[n]) for n in ms.fields)
+        elif k == "ofields":
+            toks.append("F:%d" % op[1])
+            obs = "[%s]" % ",".join(str(NUM[n]) for n in objs[op[1]].fields)
+        elif k in ("compile", "log"):
+            data = [list(ind) for ind in op[1]]
+            toks.append(data_tok(data))
+            current = [(n, ident(o)) for n, o in dict.items(ms)]       # the statistics objects currently in the mapping
+            want = collections.OrderedDict()
+            want_calls = []
+            for n, i in current:
+                want[n] = spec_compile(keyof[i], [(f, fa[0], fa[1]) for f, fa in regs[i].items()], data)
+                values = tuple(key_value(keyof[i], ind) for ind in data)
+                for f, (fn, args) in regs[i].items():
+                    pa, kw = frozen(fn, args)
+                    want_calls.append(repr((f, pa + (values,), kw)))
+            del calls[:]
+            try:
+                res = ms.compile(make_data(data, op[2] if len(op) > 2 else "list"))
+            except Exception as exc:
+                res = None
+                obs = "raise:%s" % type(exc).__name__
+                fail("op %d: compile raised %s: %s; the MultiStatistics holds the statistics objects %r, one record per object would be %r" % (
+                    j, type(exc).__name__, exc, [n for n, _ in current], dict(want)))
+            if res is not None:
+                if not isinstance(res, dict) or not all(isinstance(v, dict) for v in res.values()):
+                    obs = "<%r>" % (res,)
+                    fail("op %d: compile returned %r" % (j, res))
+                else:
+                    obs = show_mrec(res)
+                    got_calls = [repr((c[2], c[4], c[5])) for c in calls if c[0] == "fn"]
+                    if res != want:
+                        fail("op %d: compile returned %r; the MultiStatistics holds the statistics objects %r, one record per object "
+                             "(every registered function, with its frozen arguments, on the tuple of key values) is %r" % (
+                                 j, res, [n for n, _ in current], dict(want)))
+                    elif sorted(got_calls) != sorted(want_calls):
+                        fail("op %d: compile called %r, the registered functions with their frozen arguments on the tuple of "
+                             "key values are %r" % (j, sorted(got_calls), sorted(want_calls)))
+                    if k == "log":
+                        # the pipeline of the algorithms: header from `fields`, one record per generation
+                        e = {"rid": 100001 + gen[0], "gen": gen[0]}
+                        e.update((n, dict(v)) for n, v in res.items())
+                        hdr = ["rid", "gen"] + [n for n in ms.fields if n in NUM]
+                        log_ops.append(["hdr", hdr])
+                        log_ops.append(["rec", e])
+                        if op[3] if len(op) > 3 else False:
+                            log_ops.append(["stream"])
+                        gen[0] += 1
+            if bypass_after_obs:
+                compiled_after = True
+        else:
+            raise ValueError(k)
+        if k in ("fields", "compile", "log"):
+            seen_obs = True
+        elif k in MH_BYPASS and seen_obs:
+            bypass_after_obs = True
+        answers.append("%s;%s" % (obs, dump()))
+    lines = ["C18 mhist " + " ".join(toks)] if toks else ["C18 mhist"]
+    expect = [" | ".join(answers) if answers else "empty"]
+    if log_ops:
+        log_ops.append(["stream"])
+        t2, a2, f, f5 = run_history(log_ops)
+        lines.append("C18 hist " + " ".join(t2))
+        expect.append(" | ".join(a2))
+        if orc[0] is None and (f or f5):
+            fail("logbook fed with the compiled records: %s" % (f or f5))
+    kinds = set(op[0] for op in ops)
+    tag = "mhist/%s/%s%s" % (d.get("profile", "fixed"), "bypass" if bypass_after_obs else "setitem-only" if kinds & {"set", "del"} else "static",
+                             "/log" if log_ops else "")
+    return Case(d, lines, expect, orc[0], tag=tag, nontrivial=compiled_after or (seen_obs and bool(kinds & set(MH_MUTATORS))))
+
+
+def rand_mreg(rng):
+    name, fn, args = rand_reg(rng, STAT_NAMES)
+    return name, fn, args
+
+
+def rand_mdata(rng):
+    return [[rng.randint(-9, 30) for _ in range(rng.randint(1, 4))] for _ in range(rng.randint(1, 5))]
+
+
+MH_PROFILES = ["mixed", "bypass", "register", "alias", "pipeline"]
+MH_KEYS = ["len", "item0", "last", "sum", "id"]
+MH_CONTAINERS = ["list", "tuple", "fresh"]
+
+
+def rand_mhist(rng, profile, container):
+    """a history: statistics objects are created, registered on (directly and through the MultiStatistics, names
+    re-registered with other functions / frozen arguments), stored / replaced / removed with every dict mutator, and
+    `fields` / `compile` are evaluated in between (so that anything remembered from an earlier evaluation shows)."""
+    ops = []
+    nobj = [0]
+    held = []            # names probably in the mapping (generation-side guess only; absent names are fine: KeyError is modelled)
+
+    def new_obj(nregs=None):
+        ops.append(["new", rng.choice(MH_KEYS)])
+        i = nobj[0]
+        nobj[0] += 1
+        for _ in range(rng.randint(0, 2) if nregs is None else nregs):
+            name, fn, args = rand_mreg(rng)
+            ops.append(["reg", i, name, fn, args])
+        return i
+
+    def some_obj(fresh=0.7):
+        if nobj[0] == 0 or rng.random() < (fresh if profile != "alias" else 0.3):
+            return new_obj()
+        return rng.randrange(nobj[0])
+
+    def observe(p_fields=0.5, p_compile=0.7):
+        if rng.random() < p_fields:
+            ops.append(["fields"])
+        if rng.random() < p_compile:
+            if profile == "pipeline":
+                ops.append(["log", rand_mdata(rng), container, rng.random() < 0.4])
+            else:
+                ops.append(["compile", rand_mdata(rng), container])
+
+    # construction
+    how = rng.choice(["kw", "items", "empty"])
+    n0 = rng.randint(0 if how == "empty" else 1, 2)
+    first = rng.sample(CHAPTERS, n0)
+    if how == "empty":
+        for n in first:
+            ops.append(["set", n, new_obj()])
+    else:
+        ops.append(["ctor", [[n, new_obj()] for n in first], how])
+    held.extend(first)
+    observe(0.6, 0.8)
+    weights = {"mixed": [3, 2, 2, 2, 2, 2, 1, 1, 2, 3, 2],
+               "bypass": [1, 1, 4, 3, 4, 4, 2, 1, 1, 2, 1],
+               "register": [2, 1, 1, 1, 1, 1, 1, 0, 1, 6, 6],
+               "alias": [4, 2, 3, 2, 3, 2, 1, 1, 1, 3, 2],
+               "pipeline": [2, 1, 3, 2, 3, 2, 1, 0, 1, 3, 1]}[profile]
+    kinds = ["set", "del", "update", "ior", "setdefault", "pop", "popitem", "clear", "ofields", "mreg", "reg"]
+    for _ in range(rng.randint(2, 7)):
+        k = rng.choices(kinds, weights)[0]
+        if k == "set":
+            n = rng.choice(CHAPTERS)
+            ops.append(["set", n, some_obj()])
+        elif k == "del":
+            ops.append(["del", rng.choice(held) if held and rng.random() < 0.85 else rng.choice(CHAPTERS)])
+        elif k == "update":
+            names = rng.sample(CHAPTERS, rng.randint(0 if rng.random() < 0.1 else 1, 2))
+            ops.append(["update", [[n, some_obj()] for n in names], rng.choice(["dict", "kw", "pairs"])])
+        elif k == "ior":
+            names = rng.sample(CHAPTERS, rng.randint(1, 2))
+            ops.append(["ior", [[n, some_obj()] for n in names]])
+        elif k == "setdefault":
+            n = rng.choice(CHAPTERS)
+            ops.append(["setdefault", n, some_obj()])
+        elif k == "pop":
+            ops.append(["pop", rng.choice(held) if held and rng.random() < 0.85 else rng.choice(CHAPTERS)])
+        elif k == "popitem":
+            ops.append(["popitem"])
+        elif k == "clear":
+            ops.append(["clear"])
+        elif k == "ofields":
+            if nobj[0]:
+                ops.append(["ofields", rng.randrange(nobj[0])])
+        elif k == "mreg":
+            name, fn, args = rand_mreg(rng)
+            ops.append(["mreg", name, fn, args])
+        elif k == "reg":
+            if nobj[0]:
+                name, fn, args = rand_mreg(rng)
+                ops.append(["reg", rng.randrange(nobj[0]), name, fn, args])
+        last = ops[-1] if ops else [None]
+        if last[0] in ("set", "setdefault"):
+            held.append(last[1])
+        elif last[0] in ("update", "ior"):
+            held.extend(n for n, _ in last[1])
+        observe(0.35, 0.75)
+    ops.append(["fields"])
+    ops.append(["log" if profile == "pipeline" else "compile", rand_mdata(rng), container] + ([False] if profile == "pipeline" else []))
+    return {"k": "mhist", "ops": ops, "profile": profile}
+
+
+def mhist_witnesses():
+    """fixed short histories: every dict mutator once, after nothing / after `fields` / after a `compile`, followed
+    by a compile (and a re-registration through the MultiStatistics in between)"""
+    data1, data2 = [[4], [2, -4, 7]], [[1, 2], [3]]
+    base = [["new", "len"], ["reg", 0, "max", "max", []], ["new", "sum"], ["reg", 1, "q", "lin", [2, 3]],
+            ["new", "item0"], ["reg", 2, "max", "min", []]]
+    muts = [[["set", "size", 2]], [["del", "fit"]], [["update", [["size", 2]], "dict"]], [["update", [["size", 2]], "kw"]],
+            [["update", [["size", 2], ["fit", 1]], "pairs"]], [["ior", [["x", 2]]]], [["setdefault", "size", 2]],
+            [["setdefault", "fit", 2]], [["pop", "fit"]], [["pop", "x"]], [["popitem"]], [["clear"]],
+            [["clear"], ["update", [["x", 1]], "kw"]], [["pop", "fit"], ["setdefault", "fit", 2]]]
+    for mut in muts:
+        for before in ([], [["fields"]], [["compile", data1, "list"]], [["fields"], ["log", data1, "list", True]]):
+            kind = "log" if before and before[-1][0] == "log" else "compile"
+            tail = [[kind, data2, "list"] + ([False] if kind == "log" else [])]
+            yield {"k": "mhist", "profile": "fixed",
+                   "ops": base + [["ctor", [["fit", 0], ["x", 1]], "kw"]] + before + mut + tail + [["mreg", "max", "cnt", [2]], ["fields"]] + tail}
+
+
+# ------------------------------------------------------------------------------------------------
 # pickling in the middle of a history: the history goes on on the copy and on the original
 # ------------------------------------------------------------------------------------------------
 
@@ -1022,6 +1359,8 @@ def evaluate(d):
         return eval_stats(d)
     if k == "multi":
         return eval_multi(d)
+    if k == "mhist":
+        return eval_mhist(d)
     if k == "fork":
         return eval_fork(d)
     if k == "pyfmt":
@@ -1492,6 +1831,11 @@ def generate(tier, rng, mult):
     # None / float / str cells, a chapter named in the header twice)
     for hist in text_witnesses():
         yield hist
+    # histories over a MultiStatistics as mutable state (compile / fields / register / every dict mutator / record into a logbook)
+    for hist in mhist_witnesses():
+        yield hist
+    for i in range((12000 if thorough else 1500) * mult):
+        yield rand_mhist(rng, MH_PROFILES[i % len(MH_PROFILES)], MH_CONTAINERS[(i // len(MH_PROFILES)) % len(MH_CONTAINERS)])
     # the Python string functions of the text model
     for i in range((4000 if thorough else 600) * mult):
         yield rand_pyfmt(rng, i)
@@ -1572,6 +1916,18 @@ def shrink(d):
                 yield {"k": "hist", "ops": ops[:i] + [["dels", [None, None, None]]] + ops[i + 1:]}
             elif op[0] in ("pop", "del") and op[1] not in (0, None):
                 yield {"k": "hist", "ops": ops[:i] + [[op[0], 0]] + ops[i + 1:]}
+    elif d["k"] == "mhist":
+        ops = d["ops"]
+        for i in range(len(ops) - 1, -1, -1):
+            if ops[i][0] not in ("new", "ctor"):          # the object ids stay what they are
+                yield dict(d, ops=ops[:i] + ops[i + 1:])
+        for i, op in enumerate(ops):
+            if op[0] in ("compile", "log") and len(op[1]) > 1:
+                for r in range(len(op[1])):
+                    yield dict(d, ops=ops[:i] + [[op[0], op[1][:r] + op[1][r + 1:]] + op[2:]] + ops[i + 1:])
+            elif op[0] in ("update", "ior", "ctor") and len(op[1]) > 1:
+                for r in range(len(op[1])):
+                    yield dict(d, ops=ops[:i] + [[op[0], op[1][:r] + op[1][r + 1:]] + op[2:]] + ops[i + 1:])
     elif d["k"] in ("stats", "multi"):
         for i in range(len(d["regs"])):
             e = dict(d)
